@@ -62,12 +62,13 @@ type c11Log struct {
 
 	// held script: the send goroutine that is about to write call holdID waits in the hook until released
 	holdID  int
+	holdQID int // held-after-dequeue script: the send goroutine that has just taken call holdQID waits before its isCurrent test
 	held    chan struct{}
 	release chan struct{}
 }
 
 func c11NewLog() *c11Log {
-	return &c11Log{holdID: -1, held: make(chan struct{}, 1), release: make(chan struct{})}
+	return &c11Log{holdID: -1, holdQID: -1, held: make(chan struct{}, 1), release: make(chan struct{})}
 }
 
 func (l *c11Log) add(e c11rawEvent) {
@@ -133,6 +134,30 @@ func c11ReqCallNo(req []byte) int {
 
 func c11InstallHook() {
 	c11HookOnce.Do(func() {
+		transport.VerifC11AfterDequeue = func(tc *transport.TarsClient, conn net.Conn, req []byte) {
+			v, ok := c11Logs.Load(c11PortOf(conn.RemoteAddr()))
+			if !ok {
+				return
+			}
+			l, id := v.(*c11Log), c11ReqCallNo(req)
+			if id == c11WarmID {
+				return
+			}
+			l.add(c11rawEvent{k: "deq", port: c11PortOf(conn.LocalAddr()), id: id})
+			l.mu.Lock()
+			hold := l.holdQID >= 0 && id == l.holdQID
+			if hold {
+				l.holdQID = -1 // only the first dequeue of that call is held
+			}
+			l.mu.Unlock()
+			if hold {
+				l.held <- struct{}{}
+				select {
+				case <-l.release:
+				case <-time.After(10 * time.Second):
+				}
+			}
+		}
 		transport.VerifC11OnWrite = func(tc *transport.TarsClient, conn net.Conn, req []byte, current bool, closedFlag bool) {
 			v, ok := c11Logs.Load(c11PortOf(conn.RemoteAddr()))
 			if !ok {
@@ -499,7 +524,7 @@ func c11RunOnce(c *c11Case) ([]c11Event, string) {
 		c.Seq = 1
 	}
 	k := c.Burst * c.Seq * c11Halves(c)
-	if c.Mode == "held" || c.Mode == "pushcmd" || c.Mode == "down" {
+	if c.Mode == "held" || c.Mode == "heldq" || c.Mode == "pushcmd" || c.Mode == "down" {
 		k = -1 // closes / notifies on command only
 	}
 	srv, err := c11StartServer(c.Mode, k, log)
@@ -522,7 +547,7 @@ func c11RunOnce(c *c11Case) ([]c11Event, string) {
 	if err := c11Call(sp, c11WarmID); err != nil {
 		return nil, "warm-up call failed"
 	}
-	if c.Mode == "held" {
+	if c.Mode == "held" || c.Mode == "heldq" {
 		return c11RunHeld(c, srv, sp, log), ""
 	}
 	if c.Mode == "pushcmd" {
@@ -620,7 +645,11 @@ func c11RunHeld(c *c11Case, srv *c11Server, sp *tars.ServantProxy, log *c11Log) 
 		a := callNo
 		callNo++
 		log.mu.Lock()
-		log.holdID = a
+		if c.Mode == "heldq" {
+			log.holdQID = a
+		} else {
+			log.holdID = a
+		}
 		log.mu.Unlock()
 		var released time.Time
 		var relMu sync.Mutex
@@ -863,7 +892,7 @@ func c11Monitor(c *c11Case, evs []c11Event) map[string]string {
 		per = c.Burst
 	}
 	total := (c.Rounds + 1) * per
-	if c.Mode == "held" {
+	if c.Mode == "held" || c.Mode == "heldq" {
 		per, total = 0, c.Rounds*(1+c.Burst)
 	}
 	if c.Mode == "pushcmd" {
@@ -986,7 +1015,9 @@ func c11Run(c *c11Case) []Failure {
 		if repro[sig] >= 3 {
 			c.Repro = repro[sig]
 			what := fmt.Sprintf("server closes by %q after %d replies, next calls %d us after the observed close", c.Mode, c.Burst*c.Seq*c11Halves(c), c.DelayUs)
-			if c.Mode == "held" {
+			if c.Mode == "heldq" {
+				what = fmt.Sprintf("send goroutine held right after it has taken a request (before its current-connection test), server closes the connection, %d further call(s) %d us after the observed close, then the goroutine is released", c.Burst, c.DelayUs)
+			} else if c.Mode == "held" {
 				what = fmt.Sprintf("send goroutine held just before its write, server closes the connection, %d further call(s) %d us after the observed close, then the goroutine is released", c.Burst, c.DelayUs)
 			} else if c.Mode == "down" {
 				what = fmt.Sprintf("server closes the connection and stops listening, %d call(s) while it is down, server listens again, %d call(s) %d us later", c.Seq, c.Burst, c.DelayUs)
@@ -1016,10 +1047,15 @@ func c11Coq(c *c11Case) string {
 	}
 	var sb strings.Builder
 	sb.WriteString("[")
-	for i, e := range c.Events {
-		if i > 0 {
+	n := 0
+	for _, e := range c.Events {
+		if e.K == "deq" {
+			continue // kept in the recorded log for the reader; the dequeue is not a logged action of the model
+		}
+		if n > 0 {
 			sb.WriteString("; ")
 		}
+		n++
 		switch e.K {
 		case "dial":
 			fmt.Fprintf(&sb, "EDial %d", e.G)
@@ -1095,6 +1131,14 @@ func c11Gen(tier string, rng *rand.Rand) []c11Case {
 		// close notification, calls before / around / after the 500 ms grace tick of the swapped-out client
 		offs := []int{rng.Intn(20), 80 + rng.Intn(40), 380 + rng.Intn(50), 570 + rng.Intn(60), 1150 + rng.Intn(100)}
 		cs = append(cs, c11Case{Mode: "pushcmd", Burst: 1, Seq: 1, Rounds: 2, OffsMs: offs, PushClose: r%2 == 1})
+	}
+	for r := 0; r < 3*reps; r++ {
+		// held after the dequeue: the request must be handed over to the new connection
+		d := []int{0, 1000, 50000}[r%3]
+		if d > 0 {
+			d = d/2 + rng.Intn(d)
+		}
+		cs = append(cs, c11Case{Mode: "heldq", Burst: 1 + r%3, Seq: 1, DelayUs: d, Rounds: 2 + rng.Intn(3)})
 	}
 	for r := 0; r < 4*reps; r++ {
 		d := []int{0, 1000, 50000}[r%3]
